@@ -94,6 +94,7 @@ P(n) == Task("P", "", n, "")
 Z(a) == Task("Z", a, 0, "")
 W(a) == Task("W", a, 0, "")
 DEnd == Task("D", "", 0, "")
+Greedy == Task("G", "", 0, "")   \* the sub-expression just parsed was greedy: no operator can follow it
 
 \* minimal number of tokens a nonterminal still needs (for pruning derivations that cannot finish)
 MinT(a) == CASE a \in {"Decls", "Ret", "VarType", "VarInit", "Else", "AddRest", "BitRest", "MulRest", "AsRest",
@@ -198,7 +199,8 @@ Alts(name, inw) ==
             \cup (IF En(PrimAlts, "id") THEN {<<T("id", 0), NT("Steps"), P(4)>>} ELSE {})
             \cup (IF En(PrimAlts, "array") THEN {<<T("[", 0), NT("Elems"), P(2)>>} ELSE {})
             \cup (IF En(PrimAlts, "paren") THEN {<<T("(", 0), NT("Expr"), T(")", 1)>>} ELSE {})
-      [] name = "Dots" -> { <<>>, <<O("..", 0), NT("Expr"), P(3)>> }
+      \* the offset of `&x .. e` is a whole expression: whatever operator follows was consumed by it
+      [] name = "Dots" -> { <<>>, <<O("..", 0), NT("Expr"), P(3), Greedy>> }
       [] name = "Steps" ->
             {<<P(1)>>}
             \cup (IF En(PrimAlts, "index") THEN {<<O("[", 0), NT("Expr"), T("]", 2), NT("Steps")>>} ELSE {})
@@ -223,14 +225,16 @@ TakesFirst == {"Members", "Params", "ParamsMore", "BodyP", "BodyQ", "Stmt", "Blo
 (* and before taking token i + 1; cost[1] = the padding.                   *)
 (***************************************************************************)
 G0 == [toks |-> <<>>, cost |-> <<Pad>>, stack |-> <<NT("Decls")>>, zone |-> FALSE, inw |-> FALSE,
-       errs |-> 0, trunc |-> FALSE, bad |-> 0, takes |-> 0, decls |-> 0, unreachable |-> FALSE]
+       errs |-> 0, trunc |-> FALSE, bad |-> 0, takes |-> 0, decls |-> 0, unreachable |-> FALSE, greedy |-> FALSE]
 
 AddCost(g, n) == [g EXCEPT !.cost[Len(g.cost)] = @ + n]
 
 RunOne(g) ==
     LET h == Head(g.stack)
         r == Tail(g.stack)
-    IN CASE h.k = "T" -> [g EXCEPT !.toks = Append(@, h.a), !.cost = Append(@, h.n), !.stack = r, !.takes = @ + 1]
+    IN CASE h.k = "T" -> [g EXCEPT !.toks = Append(@, h.a), !.cost = Append(@, h.n), !.stack = r, !.takes = @ + 1,
+                                   !.greedy = FALSE]
+         [] h.k = "G" -> [g EXCEPT !.stack = r, !.greedy = TRUE]
          [] h.k = "P" -> [AddCost(g, h.n) EXCEPT !.stack = r]
          [] h.k = "Z" ->
               IF h.a = "priv"
@@ -317,7 +321,8 @@ Init == g = G0 /\ phase = "gen" /\ res = NoRes
 
 \* expand the leading nonterminal by one production and run what is determined
 Expand == /\ phase = "gen" /\ g.stack # <<>> /\ Head(g.stack).k = "N"
-          /\ \E alt \in Alts(Head(g.stack).a, g.inw) :
+          /\ \E alt \in (IF g.greedy /\ Head(g.stack).a \in {"AsRest", "MulRest", "AddRest", "BitRest"}
+                         THEN {<<>>} ELSE Alts(Head(g.stack).a, g.inw)) :
                 LET g1 == [g EXCEPT !.stack = alt \o Tail(g.stack)]
                 IN /\ Len(g1.toks) + Need(g1.stack) <= MaxToks
                    /\ g' \in Runs(g1)
@@ -368,6 +373,6 @@ RECURSIVE Sum(_, _)
 Sum(s, i) == IF i > Len(s) THEN 0 ELSE s[i] + Sum(s, i + 1)
 NodesNeeded == Sum(g.cost, 1)
 \* VIEW for the model-checking configurations: the text of the derivation does not matter for the counters
-CounterView == <<g.stack, Len(g.toks), NodesNeeded, g.zone, g.inw, g.errs, g.trunc, g.bad, g.unreachable, phase,
+CounterView == <<g.stack, Len(g.toks), NodesNeeded, g.zone, g.inw, g.errs, g.trunc, g.bad, g.unreachable, g.greedy, phase,
                  IF phase = "done" THEN res.outcome ELSE "">>
 =============================================================================
